@@ -83,6 +83,16 @@ def chain_bcj_lzma2():
         lambda d: lzma.compress(d, format=lzma.FORMAT_RAW, filters=[f1, f2])
 
 
+def chain_bcj_props_lzma2(offset):
+    """the BCJ coder carries its start offset as a 4-byte property (legal; 7-Zip itself writes none)"""
+    def mk():
+        f1 = {"id": lzma.FILTER_X86, "start_offset": offset} if offset else {"id": lzma.FILTER_X86}
+        f2 = {"id": lzma.FILTER_LZMA2, "preset": 1}
+        return [("21", lzma._encode_filter_properties(f2)), ("03030103", offset.to_bytes(4, "little"))], \
+            lambda d: lzma.compress(d, format=lzma.FORMAT_RAW, filters=[f1, f2])
+    return mk
+
+
 def chain_delta_lzma2():
     f1 = {"id": lzma.FILTER_DELTA, "dist": 3}
     f2 = {"id": lzma.FILTER_LZMA2, "preset": 1}
@@ -91,7 +101,8 @@ def chain_delta_lzma2():
 
 
 CHAINS = {"copy": chain_copy, "lzma2": chain_lzma2, "lzma": chain_lzma, "bzip2": chain_bzip2, "deflate": chain_deflate,
-          "bcj+lzma2": chain_bcj_lzma2, "delta+lzma2": chain_delta_lzma2}
+          "bcj+lzma2": chain_bcj_lzma2, "delta+lzma2": chain_delta_lzma2,
+          "bcj(0)+lzma2": chain_bcj_props_lzma2(0), "bcj(16)+lzma2": chain_bcj_props_lzma2(16)}
 
 
 def aes_props_and_cipher(password, cycles=6, ivlen=16, saltlen=0, rnd=None):
